@@ -15,4 +15,5 @@ def rules(ctx, tier):
         lambda: mutation.rule_mut(ctx),
         lambda: search.rule_finderroute(ctx),
         lambda: search.rule_narrow(ctx),
+        lambda: search.rule_constvalid(ctx),
     ]
